@@ -325,6 +325,7 @@ func flattenHelpers(pkgs []*packages.Package) (map[string][]byte, []string) {
 	}
 	if !inlineMinimal {
 		in.propagateInjectedFields()
+		in.restoreConcreteFieldTypes()
 		in.collectLitVars()
 		for _, p := range pkgs {
 			if strings.HasPrefix(p.PkgPath, modulePath) {
@@ -3445,4 +3446,108 @@ func derivedTemplate(info *types.Info, pkg *types.Package, val ast.Expr, lit *as
 		return nil, nil
 	}
 	return out, sibs
+}
+
+// restoreConcreteFieldTypes: a field of the reference tree whose type was a concrete (pointer to a) type of its own package
+// and is now an interface, while everything ever stored into it still has the old concrete type (`router serviceController`
+// instead of `router *Router`, to name what the holder needs or to let tests substitute it): the field is given its
+// concrete type back, so that calls through it are the static calls the rules were written for.
+func (in *inliner) restoreConcreteFieldTypes() {
+	for _, p := range in.pkgs {
+		if !strings.HasPrefix(p.PkgPath, modulePath) || p.Types == nil {
+			continue
+		}
+		info := p.TypesInfo
+		for _, f := range p.Syntax {
+			for _, d := range f.Decls {
+				gd, ok := d.(*ast.GenDecl)
+				if !ok || gd.Tok != token.TYPE {
+					continue
+				}
+				for _, sp := range gd.Specs {
+					ts, ok := sp.(*ast.TypeSpec)
+					if !ok {
+						continue
+					}
+					st, ok := ts.Type.(*ast.StructType)
+					if !ok {
+						continue
+					}
+					for _, fld := range st.Fields.List {
+						for _, nm := range fld.Names {
+							fv, _ := info.Defs[nm].(*types.Var)
+							if fv == nil {
+								continue
+							}
+							want := baselineFieldType[p.PkgPath+"."+ts.Name.Name+"."+nm.Name]
+							if want == "" || types.TypeString(fv.Type(), nil) == want {
+								continue
+							}
+							if _, isIface := fv.Type().Underlying().(*types.Interface); !isIface {
+								continue
+							}
+							// the old type must be spelled without a package qualifier here: T or *T of this package
+							local := strings.TrimPrefix(want, "*")
+							if !strings.HasPrefix(local, p.PkgPath+".") || strings.Contains(strings.TrimPrefix(local, p.PkgPath+"."), ".") {
+								continue
+							}
+							tn := strings.TrimPrefix(local, p.PkgPath+".")
+							if p.Types.Scope().Lookup(tn) == nil || len(fld.Names) != 1 {
+								continue
+							}
+							// every value stored into the field has the old type
+							allOld, nStores := true, 0
+							for _, f2 := range p.Syntax {
+								ast.Inspect(f2, func(n ast.Node) bool {
+									switch x := n.(type) {
+									case *ast.KeyValueExpr:
+										if id, ok := x.Key.(*ast.Ident); ok && info.Uses[id] == types.Object(fv) {
+											nStores++
+											if tv, ok := info.Types[x.Value]; !ok || types.TypeString(tv.Type, nil) != want {
+												allOld = false
+											}
+										}
+									case *ast.AssignStmt:
+										for i, l := range x.Lhs {
+											sel, ok := l.(*ast.SelectorExpr)
+											if !ok || len(x.Lhs) != len(x.Rhs) {
+												continue
+											}
+											if s, ok := info.Selections[sel]; ok && s.Obj() == types.Object(fv) {
+												nStores++
+												if tv, ok := info.Types[x.Rhs[i]]; !ok || types.TypeString(tv.Type, nil) != want {
+													allOld = false
+												}
+											}
+										}
+									case *ast.CompositeLit:
+										// positional literals of the struct are not examined
+										if tv, ok := info.Types[x]; ok && len(x.Elts) > 0 {
+											if _, isKV := x.Elts[0].(*ast.KeyValueExpr); !isKV {
+												if nt, ok := tv.Type.(*types.Named); ok && nt.Obj().Name() == ts.Name.Name && nt.Obj().Pkg() == p.Types {
+													allOld = false
+												}
+											}
+										}
+									}
+									return true
+								})
+							}
+							if !allOld || nStores == 0 {
+								continue
+							}
+							var te ast.Expr = ast.NewIdent(tn)
+							if strings.HasPrefix(want, "*") {
+								te = &ast.StarExpr{X: te}
+							}
+							fld.Type = te
+							in.changed[in.fset.Position(f.Pos()).Filename] = f
+							in.n++
+							in.inlined["(field type) "+ts.Name.Name+"."+nm.Name+" restored to "+want]++
+						}
+					}
+				}
+			}
+		}
+	}
 }
